@@ -12,10 +12,13 @@ use crate::report::{show, CaseOut};
 use crate::rng::{mix, Rng};
 use crate::session::Session;
 
+const HISTORIES_QUICK: u64 = 64;
+const HISTORIES_THOROUGH: u64 = 600;
+
 pub fn plan(tier: &str) -> u64 {
     match tier {
-        "quick" => 64,
-        _ => 600,
+        "quick" => HISTORIES_QUICK + 48,
+        _ => HISTORIES_THOROUGH + 480,
     }
 }
 
@@ -422,6 +425,24 @@ pub fn case_seek_storm(out: &mut CaseOut, seed: u64, idx: u64, prop: &str) {
 }
 
 pub fn run_case(tier: &str, seed: u64, idx: u64) -> CaseOut {
+    // the cases behind the histories are all seek storms; every second one uses the edge template
+    // with point lookups (a narrow deep file at one edge under a wide middle file under a narrow top
+    // file: the layout in which a second file runs out of seeks while a candidate is pending and
+    // the mis-directed compaction would be a trivial move)
+    let base = if tier == "quick" { HISTORIES_QUICK } else { HISTORIES_THOROUGH };
+    if idx >= base {
+        let j = idx - base;
+        let k = if j % 2 == 0 {
+            // k % 5 == 1 (edge template) and k % 3 != 1 (point lookups)
+            let edge_ks = [6u64, 11, 21, 26, 36, 41, 51, 56];
+            edge_ks[(j / 2 % 8) as usize] + 60 * (j / 16)
+        } else {
+            1000 + j
+        };
+        let mut out = CaseOut::new();
+        case_seek_storm(&mut out, seed, 4 * k + 3, "C10");
+        return out;
+    }
     if idx % 4 == 3 {
         let mut out = CaseOut::new();
         case_seek_storm(&mut out, seed, idx, "C10");
